@@ -320,6 +320,12 @@ func (w *world) debugGarbage() string {
 		_ = d
 	}
 	for n, sh := range w.st.shards() {
+		for k := 0; k < 3; k++ {
+			b1, _ := sh.VerifGetGarbage(w.batch)
+			cur, proc := sh.VerifGCEpochs()
+			fmt.Fprintf(&b, "\nshard %d: epochs cur=%d processed=%d GetGarbage(batch)=%v", n, cur, proc, b1)
+			sh.VerifGCPass()
+		}
 		bins, err := sh.VerifGetGarbage(100)
 		fmt.Fprintf(&b, "\nshard %d garbage (err=%v):", n, err)
 		for _, bin := range bins {
